@@ -80,6 +80,10 @@ const (
 
 type options map[string]interface{}
 
+// optLock serializes access to every options map (they are read by Dial,
+// Listen and the pipes while the application may be setting options).
+var optLock sync.RWMutex
+
 func init() {
 	transport.RegisterTransport(Transport)
 }
@@ -89,6 +93,8 @@ func (o options) get(name string) (interface{}, error) {
 	if name == mangos.OptionNoDelay {
 		return true, nil
 	}
+	optLock.RLock()
+	defer optLock.RUnlock()
 	v, ok := o[name]
 	if !ok {
 		return nil, mangos.ErrBadOption
@@ -98,6 +104,8 @@ func (o options) get(name string) (interface{}, error) {
 
 // SetOption sets an option.  We have none, so just ErrBadOption.
 func (o options) set(name string, val interface{}) error {
+	optLock.Lock()
+	defer optLock.Unlock()
 	switch name {
 	case mangos.OptionNoDelay:
 		if _, ok := val.(bool); ok {
@@ -202,7 +210,7 @@ func (d *dialer) Dial() (transport.Pipe, error) {
 	wd := &websocket.Dialer{}
 
 	wd.Subprotocols = []string{d.proto.PeerName + ".sp.nanomsg.org"}
-	if v, ok := d.opts[mangos.OptionTLSConfig]; ok {
+	if v, err := d.opts.get(mangos.OptionTLSConfig); err == nil {
 		wd.TLSClientConfig = v.(*tls.Config)
 	}
 
@@ -316,7 +324,8 @@ func (l *listener) Listen() error {
 		return nil
 	}
 	if l.iswss {
-		v, ok := l.opts[mangos.OptionTLSConfig]
+		v, err := l.opts.get(mangos.OptionTLSConfig)
+		ok := err == nil
 		if !ok || v == nil {
 			return mangos.ErrTLSNoConfig
 		}
@@ -462,7 +471,7 @@ func (l *listener) ServeHTTP(w http.ResponseWriter, r *http.Request) {
 
 func (l *listener) Address() string {
 	if l.anon {
-		u := l.url
+		u := *l.url
 		u.Host = fmt.Sprintf("%s:%d", u.Hostname(), l.bound.Port)
 		return u.String()
 	}
